@@ -55,6 +55,13 @@ def extras_groups(rng: random.Random, n: int):
                 g["func"], g["dtype"] = rng.choice([r for r in cc.REDUCTIONS if r[0] in cc.ARG or r[0] in cc.FIRSTLAST])
         out.append(g)
     # in-memory values x chunked labels, systematically: one group per (representative reduction, shape/axis)
+    # values and labels chunked differently (values in one block, lazy labels in the layout's blocks): every guard that counts
+    # blocks must count them after the chunks have been unified
+    for (f, dt), (lnd, vnd, ax), lay in itertools.product([r for r in cc.REDUCTIONS if r[0] in ("sum", "nanmax", "argmax", "median")],
+                                                         cc.SHAPES, ["sorted", "periodic", "cohorts"]):
+        if rng.random() < 0.5:
+            out.append(dict(func=f, dtype=dt, engine=rng.choice(cc.ENGINES), reindex=rng.choice(cc.REINDEX), bydask=True, lnd=lnd,
+                            vnd=vnd, axis=ax, expected=True, layout=lay, extra="diffchunks"))
     reps = [r for r in cc.REDUCTIONS if r[0] in ("argmax", "nanargmin", "first", "nanlast", "sum", "median")]
     for (f, dt), (lnd, vnd, ax) in itertools.product(reps, cc.SHAPES):
         out.append(dict(func=f, dtype=dt, engine=rng.choice(cc.ENGINES), reindex=rng.choice(cc.REINDEX), bydask=True, lnd=lnd,
@@ -171,6 +178,11 @@ def cmp_model(rec, mline: str) -> str | None:
     if mline.startswith("err "):
         want = mline[4:].strip()
         if rec["kind"] == "err" and rec["phase"] == "call" and rec["err"] == want:
+            return None
+        if (rec.get("cell", {}).get("extra") == "diffchunks" and rec["kind"] == "err" and rec["phase"] == "call"
+                and rec["err"] in CLEAN and want in CLEAN):
+            # values and labels chunked differently: flox's guards count blocks partly before and partly after unifying the
+            # chunks, the model has one block count - which of the two clean refusals fires first is not modelled
             return None
         got = f"{rec['err']} at {rec['phase']} in {rec['where']}" if rec["kind"] == "err" else "success"
         return f"model predicts {want} at call time, flox gave {got}"
